@@ -4,7 +4,7 @@
 From Coq Require Import ZArith List Bool.
 Import ListNotations.
 Require Import AV.Generated.ExnOrder AV.Generated.SmppConsts AV.Model.Base AV.Model.Codec AV.Model.Split AV.Model.TimeFmt AV.Model.Pdu
-               AV.Spec.Smpp34 AV.Proofs.PduProofs AV.Proofs.WireProofs.
+               AV.Spec.Smpp34 AV.Proofs.PduProofs AV.Proofs.WireProofs AV.Proofs.SmProofs.
 Open Scope Z_scope.
 
 (* command ids and the set of supported PDU types are those of section 5.1.2.1 *)
@@ -76,9 +76,11 @@ Theorem C04_sm_layout :
        | [] => exists bytes e', smpp_encode default m (text_of m) = Ok (bytes, e')
                  /\ (match e' with Some e => enc_data_coding e | None => Ok 0 end) = Ok dc
                  /\ ((sm = bytes /\ ptlv = [] /\ Z.of_nat (length bytes) <= 254 /\ s_payload m = [])
-                     \/ (sm = [] /\ ptlv = spec_tlv TLV_MESSAGE_PAYLOAD bytes))
+                     \/ (sm = [] /\ ptlv = spec_tlv TLV_MESSAGE_PAYLOAD bytes /\ Z.of_nat (length bytes) <= 65535
+                         /\ (254 <? Z.of_nat (length bytes)) || (match s_payload m with [] => false | _ => true end) = true))
        | pre => sm = pre /\ ptlv = []
-       end.
+       end
+    /\ 0 <= s_seq m <= 4294967295 /\ Z.of_nat (length b) <= 4294967295.
 Proof. exact sm_layout. Qed.
 
 (* ... and the data_coding sent is one under which the text bytes decode to the text supplied *)
@@ -117,6 +119,34 @@ Theorem C04_bind_decode :
                (spec_bind_body (b_system_id bd) (b_password bd) (b_system_type bd) (b_iface bd) (b_ton bd) (b_npi bd) (b_range bd)) in
   exists h, parse_header pdu = Ok h /\ decode default pdu h = Ok (MBind cmd bd).
 Proof. exact bind_decode_spec. Qed.
+
+(* a specification submit_sm / deliver_sm: mandatory fields of any admissible value, short_message of any length up to 255,
+   ANY number of optional parameters in ANY order (message_payload anywhere among them), any data_coding the library
+   knows, any default alphabet: the decoder returns exactly the field values the PDU was built from; what each optional
+   parameter means is tlvs_meaning (integers big-endian by their length, C-octet strings without their NUL, octet strings
+   as they are, the flag parameter as True, message_payload decoded like short_message) *)
+Theorem C04_sm_decode :
+  forall default cmd seq f tl codec short opts0 opts payload sch val,
+  (cmd =? SmppCommand_SUBMIT_SM) || (cmd =? SmppCommand_DELIVER_SM) = true ->
+  mem cmd SmppCommand_values = true -> u32r seq ->
+  wf_wire f -> w_tlvs f = tlv_area tl -> Forall wf_tlv tl ->
+  16 + Z.of_nat (length (spec_sm_body f)) <= 4294967295 ->
+  enc_of_data_coding (w_dc f) default = Ok codec ->
+  decode_message (w_esm f) codec (w_sm f) = Ok (short, opts0) ->
+  tlvs_meaning (w_esm f) codec tl opts0 [] = Ok (opts, payload) ->
+  smpp_to_time (w_sched f) = Ok sch -> smpp_to_time (w_valid f) = Ok val ->
+  (short = [] /\ payload <> []) \/ (short <> [] /\ payload = []) ->
+  let pdu := spec_pdu cmd 0 seq (spec_sm_body f) in
+  exists h, parse_header pdu = Ok h /\ decode default pdu h = Ok (MSm cmd (sm_of seq f default codec short payload opts sch val)).
+Proof. exact sm_decode_spec. Qed.
+
+(* the optional-parameter loop on its own *)
+Theorem C04_tlv_loop :
+  forall esm codec pdu tl fuel index acc payload,
+  Forall wf_tlv tl -> (length tl < fuel)%nat ->
+  skipn index pdu = tlv_area tl -> length pdu = (index + length (tlv_area tl))%nat ->
+  parse_tlvs fuel esm codec pdu (length pdu) index acc payload = tlvs_meaning esm codec tl acc payload.
+Proof. exact parse_tlvs_meaning. Qed.
 
 (* user data headers with an 8-bit and a 16-bit concatenation reference *)
 Theorem C04_udh_decode :
